@@ -91,6 +91,8 @@ impl ClockTime {
 	```
 	*/
 	pub fn from_ticks_f64(clock: impl Into<ClockId>, ticks: f64) -> Self {
+		// a clock time cannot be negative (and the fraction must stay in 0..1)
+		let ticks = ticks.max(0.0);
 		Self {
 			clock: clock.into(),
 			ticks: ticks as u64,
